@@ -17,3 +17,15 @@ Theorem C03 : forall (U : Type) cond act reset_user es0,
   C03_statement U cond act reset_user es0 c order.
 Proof. exact C03_proved. Qed.
 Print Assumptions C03.
+
+(* the same for the engine WITH its working memory, tied to the from-scratch value of the conditions: the rule whose actions
+   run has maximal salience among all active rules whose condition is true on the facts of that moment (proofs/RefineTheorems.v) *)
+From Grule Require Import Values Syntax Facts Eval Refinement RefineTheorems.
+Theorem C03_semantic : forall rules meth panics_inside mutating
+  (meth_pure : forall fs f args ret fs', mutating f = false -> meth fs f args = Ok (ret, fs') -> fs' = fs),
+  rules_ok rules mutating -> dependency_hypothesis rules meth mutating ->
+  forall es, NoDup (map e_key es) -> forall c, (0 <= c_max c)%Z ->
+  forall order, (forall i l, Permutation.Permutation (order i l) l) ->
+  C03_semantic_statement rules meth panics_inside es c order.
+Proof. exact C03_semantic_proved. Qed.
+Print Assumptions C03_semantic.
